@@ -183,6 +183,196 @@ theorem unmEnum_err_path {s : Schema} {n : String} {v : Raw} {path p : Path} {c 
 theorem prefix_of_append {path p : Path} {x : String} (h : (path ++ [x]) <+: p) : path <+: p :=
   List.IsPrefix.trans (List.prefix_append path [x]) h
 
+/-! equations of `unmSh`, one per Go shape -/
+
+theorem unmSh_ptr (s : Schema) (obj : String → Bool → Raw → Path → Res GoV) (i : Sh) (t : Ty) (v : Raw) (path : Path) :
+    unmSh s obj (.ptr i) t v path =
+      if v.isNil && t.nn then .error (.err path "null") else
+      if v.isNil then .ok .nil
+      else (match unmSh s obj i t v path with
+        | .ok g => .ok (.ptr g)
+        | .error e => .error e) := by
+  conv => lhs; unfold unmSh
+  try rfl
+
+theorem unmSh_slice (s : Schema) (obj : String → Bool → Raw → Path → Res GoV) (el : Sh) (t : Ty) (v : Raw) (path : Path) :
+    unmSh s obj (.slice el) t v path =
+      if v.isNil && t.nn then .error (.err path "null") else
+      if v.isNil then .ok .nilSlice
+      else (match t with
+        | .list et _ => unmSlice (unmSh s obj el et) v path
+        | _ => .error (.panic "slice shape for a named type")) := by
+  conv => lhs; unfold unmSh
+  try rfl
+
+theorem unmSh_struct (s : Schema) (obj : String → Bool → Raw → Path → Res GoV) (n : String) (t : Ty) (v : Raw) (path : Path) :
+    unmSh s obj (.struct n) t v path =
+      if v.isNil && t.nn then .error (.err path "null") else obj n false v path := by
+  conv => lhs; unfold unmSh
+  try rfl
+
+theorem unmSh_mapIn (s : Schema) (obj : String → Bool → Raw → Path → Res GoV) (n : String) (t : Ty) (v : Raw) (path : Path) :
+    unmSh s obj (.mapIn n) t v path =
+      if v.isNil && t.nn then .error (.err path "null") else
+      if v.isNil then .ok .nilMap else obj n true v path := by
+  conv => lhs; unfold unmSh
+  try rfl
+
+theorem unmSh_enum (s : Schema) (obj : String → Bool → Raw → Path → Res GoV) (n : String) (t : Ty) (v : Raw) (path : Path) :
+    unmSh s obj (.enum n) t v path =
+      if v.isNil && t.nn then .error (.err path "null") else unmEnum s n v path := by
+  conv => lhs; unfold unmSh
+  try rfl
+
+theorem unmSh_any (s : Schema) (obj : String → Bool → Raw → Path → Res GoV) (t : Ty) (v : Raw) (path : Path) :
+    unmSh s obj (.scalar .any) t v path =
+      if v.isNil && t.nn then .error (.err path "null") else
+      if v.isNil then .ok .nil else .ok (.any v) := by
+  conv => lhs; unfold unmSh
+  try rfl
+
+theorem unmSh_scalar (s : Schema) (obj : String → Bool → Raw → Path → Res GoV) (k : ScalarK) (hk : k ≠ .any) (t : Ty) (v : Raw) (path : Path) :
+    unmSh s obj (.scalar k) t v path =
+      if v.isNil && t.nn then .error (.err path "null") else scalar k v path := by
+  cases k <;> first | (exact absurd rfl hk) | (conv => lhs; unfold unmSh) <;> rfl
+
+/-- an equation for `unm` at positive fuel -/
+theorem unm_succ (s : Schema) (c : Cfg) (f : Nat) (t : Ty) (sh : Sh) (v : Raw) (path : Path) :
+    unm s c (f + 1) t sh v path =
+      unmSh s (fun n isMap v path =>
+        if isMap then unmMap s c (unm s c f) n v path
+        else unmStruct s c (zero s c f) (unm s c f) n v path) sh t v path := rfl
+
+theorem unmMap_err_prefix {s : Schema} {c : Cfg} {rec : Rec} {n : String} {v : Raw} {path p : Path} {cls : String}
+    (hrec : ∀ t sh v path p cls, rec t sh v path = .error (.err p cls) → path <+: p)
+    (h : unmMap s c rec n v path = .error (.err p cls)) : path <+: p := by
+  unfold unmMap at h
+  split at h
+  · split at h
+    · cases h
+    · rename_i e he; cases h
+      obtain ⟨fd, _, hf⟩ := mapE_error he
+      unfold mapField at hf
+      split at hf
+      · cases hf
+      · split at hf
+        · cases hf
+        · rename_i e' he'; cases hf; exact prefix_of_append (hrec _ _ _ _ _ _ he')
+  · cases h
+
+theorem unmStruct_err_prefix {s : Schema} {c : Cfg} {z : Sh → GoV} {rec : Rec} {n : String} {v : Raw}
+    {path p : Path} {cls : String}
+    (hrec : ∀ t sh v path p cls, rec t sh v path = .error (.err p cls) → path <+: p)
+    (h : unmStruct s c z rec n v path = .error (.err p cls)) : path <+: p := by
+  unfold unmStruct at h
+  split at h
+  · split at h
+    · cases h
+    · rename_i e he; cases h
+      obtain ⟨fd, _, hf⟩ := mapE_error he
+      unfold structField at hf
+      dsimp only at hf
+      split at hf
+      · cases hf
+      · split at hf
+        · cases hf
+        · rename_i e' he'; cases hf; exact prefix_of_append (hrec _ _ _ _ _ _ he')
+  · cases h
+
+theorem unmSh_err_prefix (s : Schema) (obj : String → Bool → Raw → Path → Res GoV)
+    (hobj : ∀ n m v path p cls, obj n m v path = .error (.err p cls) → path <+: p) :
+    ∀ (sh : Sh) (t : Ty) (v : Raw) (path p : Path) (cls : String),
+      unmSh s obj sh t v path = .error (.err p cls) → path <+: p := by
+  intro sh
+  induction sh with
+  | scalar k =>
+    intro t v path p cls h
+    unfold unmSh at h
+    split at h
+    · cases h; exact List.prefix_refl _
+    · split at h
+      all_goals first
+        | (rw [scalar_err_path h]; exact List.prefix_refl _)
+        | (split at h <;> cases h; done)
+        | (cases h; done)
+        | (rename_i hh; cases hh; done)
+        | (exfalso; simp_all; done)
+  | enum n =>
+    intro t v path p cls h
+    unfold unmSh at h
+    split at h
+    · cases h; exact List.prefix_refl _
+    · split at h
+      all_goals first
+        | (rw [unmEnum_err_path h]; exact List.prefix_refl _)
+        | (rename_i hh; cases hh; done)
+        | (exfalso; simp_all; done)
+  | struct n =>
+    intro t v path p cls h
+    unfold unmSh at h
+    split at h
+    · cases h; exact List.prefix_refl _
+    · split at h
+      all_goals first
+        | (rename_i hh; cases hh; exact hobj _ _ _ _ _ _ h)
+        | (rename_i hh; cases hh; done)
+        | (exfalso; simp_all; done)
+  | mapIn n =>
+    intro t v path p cls h
+    unfold unmSh at h
+    split at h
+    · cases h; exact List.prefix_refl _
+    · split at h
+      all_goals first
+        | (rename_i hh; cases hh; split at h; (· cases h); (· exact hobj _ _ _ _ _ _ h))
+        | (rename_i hh; cases hh; done)
+        | (exfalso; simp_all; done)
+  | bad w =>
+    intro t v path p cls h
+    unfold unmSh at h
+    split at h
+    · cases h; exact List.prefix_refl _
+    · split at h
+      all_goals first
+        | (cases h; done)
+        | (rename_i hh; cases hh; done)
+        | (exfalso; simp_all; done)
+  | ptr inner ih =>
+    intro t v path p cls h
+    unfold unmSh at h
+    split at h
+    · cases h; exact List.prefix_refl _
+    · split at h
+      all_goals first
+        | (rename_i hh; cases hh
+           split at h
+           · cases h
+           · split at h
+             · cases h
+             · rename_i e he; cases h; exact ih _ _ _ _ _ he)
+        | (rename_i hh; cases hh; done)
+        | (exfalso; simp_all; done)
+  | slice el ih =>
+    intro t v path p cls h
+    unfold unmSh at h
+    split at h
+    · cases h; exact List.prefix_refl _
+    · split at h
+      all_goals first
+        | (rename_i hh; cases hh
+           split at h
+           · cases h
+           · split at h
+             · unfold unmSlice at h
+               split at h
+               · cases h
+               · rename_i e he; cases h
+                 obtain ⟨j, x, _, hf⟩ := mapIdxE_error he
+                 exact prefix_of_append (ih _ _ _ _ _ hf)
+             · cases h)
+        | (rename_i hh; cases hh; done)
+        | (exfalso; simp_all; done)
+
 /-- every coercion error is reported at the position being unmarshalled or below it -/
 theorem unm_err_prefix (s : Schema) (c : Cfg) : ∀ (f : Nat) (t : Ty) (sh : Sh) (v : Raw) (path p : Path) (cls : String),
     unm s c f t sh v path = .error (.err p cls) → path <+: p := by
@@ -191,58 +381,12 @@ theorem unm_err_prefix (s : Schema) (c : Cfg) : ∀ (f : Nat) (t : Ty) (sh : Sh)
   | zero => intro t sh v path p cls h; simp [unm] at h
   | succ f ih =>
     intro t sh v path p cls h
-    simp only [unm] at h
-    split at h
-    · cases h; exact List.prefix_refl _
-    · split at h
-      · cases h
-      · split at h <;> cases h
-      · rw [scalar_err_path h]; exact List.prefix_refl _
-      · rw [unmEnum_err_path h]; exact List.prefix_refl _
-      · split at h
-        · cases h
-        · split at h
-          · cases h
-          · rename_i e he; cases h; exact ih _ _ _ _ _ _ he
-      · split at h
-        · cases h
-        · split at h
-          · unfold unmSlice at h
-            split at h
-            · cases h
-            · rename_i e he; cases h
-              obtain ⟨j, x, _, hf⟩ := mapIdxE_error he
-              exact prefix_of_append (ih _ _ _ _ _ _ hf)
-          · cases h
-      · split at h
-        · cases h
-        · unfold unmMap at h
-          split at h
-          · split at h
-            · cases h
-            · rename_i e he; cases h
-              obtain ⟨fd, _, hf⟩ := mapE_error he
-              unfold mapField at hf
-              split at hf
-              · cases hf
-              · split at hf
-                · cases hf
-                · rename_i e' he'; cases hf; exact prefix_of_append (ih _ _ _ _ _ _ he')
-          · cases h
-      · unfold unmStruct at h
-        split at h
-        · split at h
-          · cases h
-          · rename_i e he; cases h
-            obtain ⟨fd, _, hf⟩ := mapE_error he
-            unfold structField at hf
-            dsimp only at hf
-            split at hf
-            · cases hf
-            · split at hf
-              · cases hf
-              · rename_i e' he'; cases hf; exact prefix_of_append (ih _ _ _ _ _ _ he')
-        · cases h
+    rw [unm_succ] at h
+    refine unmSh_err_prefix s _ ?_ sh t v path p cls h
+    intro n m v path p cls h'
+    split at h'
+    · exact unmMap_err_prefix ih h'
+    · exact unmStruct_err_prefix ih h'
 
 theorem mapE_ok_mem {ε α β : Type} {f : α → Except ε β} {xs : List α} {ys : List β} {y : β}
     (h : mapE f xs = .ok ys) (hy : y ∈ ys) : ∃ x, x ∈ xs ∧ f x = .ok y := by
@@ -323,23 +467,27 @@ def GoV.isNilGo : GoV → Bool
 theorem unm_null (s : Schema) (c : Cfg) (f : Nat) (t : Ty) (sh : Sh) (path : Path)
     (ht : t.nn = false) (hs : sh.nilable = true) :
     ∃ z, unm s c (f + 1) t sh .nil path = .ok z ∧ z.isNilGo = true := by
+  rw [unm_succ]
   cases sh <;> simp [Sh.nilable] at hs
-  case scalar k => cases k <;> simp at hs; exact ⟨.nil, by simp [unm, Raw.isNil, ht], rfl⟩
-  case mapIn n => exact ⟨.nilMap, by simp [unm, Raw.isNil, ht], rfl⟩
-  case ptr i => exact ⟨.nil, by simp [unm, Raw.isNil, ht], rfl⟩
-  case slice e => exact ⟨.nilSlice, by simp [unm, Raw.isNil, ht], rfl⟩
+  case scalar k =>
+    cases k <;> simp at hs
+    exact ⟨.nil, by simp [unmSh_any, Raw.isNil, ht], rfl⟩
+  case mapIn n => exact ⟨.nilMap, by simp [unmSh_mapIn, Raw.isNil, ht], rfl⟩
+  case ptr i => exact ⟨.nil, by simp [unmSh_ptr, Raw.isNil, ht], rfl⟩
+  case slice e => exact ⟨.nilSlice, by simp [unmSh_slice, Raw.isNil, ht], rfl⟩
 
 /-- a non-null value never unmarshals to a Go nil of a nilable shape -/
 theorem unm_value_not_nil (s : Schema) (c : Cfg) (f : Nat) (t : Ty) (sh : Sh) (v : Raw) (path : Path) (g : GoV)
     (hv : v.isNil = false) (hs : sh.nilable = true) (h : unm s c (f + 1) t sh v path = .ok g) :
     g.isNilGo = false := by
+  rw [unm_succ] at h
   cases sh <;> simp [Sh.nilable] at hs
   case scalar k =>
     cases k <;> simp at hs
-    simp [unm, hv] at h
+    simp [unmSh_any, hv] at h
     subst h; rfl
   case mapIn n =>
-    simp only [unm, hv, unmMap] at h
+    simp only [unmSh_mapIn, hv, unmMap] at h
     simp at h
     split at h
     · split at h
@@ -347,13 +495,13 @@ theorem unm_value_not_nil (s : Schema) (c : Cfg) (f : Nat) (t : Ty) (sh : Sh) (v
       · cases h
     · cases h
   case ptr i =>
-    simp only [unm, hv] at h
+    simp only [unmSh_ptr, hv] at h
     simp at h
     split at h
     · cases h; rfl
     · cases h
   case slice e =>
-    simp only [unm, hv] at h
+    simp only [unmSh_slice, hv] at h
     simp at h
     split at h
     · unfold unmSlice at h
